@@ -82,13 +82,9 @@ func (f *rateFlag) Set(v string) (err error) {
 		return fmt.Errorf("-rate format %q doesn't match the \"freq/duration\" format (i.e. 50/1s)", v)
 	}
 
-	f.Freq, err = strconv.Atoi(ps[0])
+	freq, err := strconv.Atoi(ps[0])
 	if err != nil {
 		return err
-	}
-
-	if f.Freq == 0 {
-		return nil
 	}
 
 	switch ps[1] {
@@ -96,8 +92,25 @@ func (f *rateFlag) Set(v string) (err error) {
 		ps[1] = "1" + ps[1]
 	}
 
-	f.Per, err = time.ParseDuration(ps[1])
-	return err
+	per, err := time.ParseDuration(ps[1])
+	if err != nil {
+		return err
+	}
+
+	// A rate is a number of hits per time unit: a negative number of hits,
+	// or hits per no time at all, is not a rate. They used to be accepted
+	// and silently meant an attack without hits, or an unlimited one that
+	// did not ask for -max-workers.
+	if freq < 0 || per <= 0 {
+		return fmt.Errorf("-rate %q: the frequency can't be negative and the time unit must be bigger than zero", v)
+	}
+
+	f.Freq = freq
+	if freq != 0 {
+		f.Per = per
+	}
+
+	return nil
 }
 
 func (f *rateFlag) String() string {
